@@ -34,7 +34,7 @@ func TestCheck(t *testing.T) {
 	defer run.Finish()
 	sd := gen.Zoo()
 	run.Rule("queries generated over the zoo schema with @skip/@include (literal and variable conditions, supplied/defaulted) on fields, inline fragments, spreads of re-used named fragments, union-member fragments, same-alias duplicates where only one copy is annotated, both directives on one node in both orders; " +
-		"every selection set keeps one un-annotated leaf so the pruned text is valid. Oracle: Execute(annotated) == Execute(textually pruned) on a plain and a batch configuration (and == reference evaluation of the annotated AST). " +
+		"every selection set keeps one un-annotated leaf so the pruned text is valid. Oracle: Execute(annotated) == Execute(textually pruned) on a plain and a batch configuration (and == reference evaluation of the annotated AST); every second case additionally parses the annotated query with a Go variables map that has just served Parse of another generated document (same variable names, other defaults). " +
 		"Non-trivial = at least one node excluded and one annotated node kept; distinct by annotated AST shape.")
 	run.Assume("gen.Doc.Prune implements 'textually deleting every excluded node and dropping the directives from the rest'")
 	var schemas []*graphql.Schema
@@ -189,6 +189,35 @@ func TestCheck(t *testing.T) {
 				wit["what"] = "annotated query result differs from pruned query result"
 				wit["got"] = vlib.Trunc(g, 2500)
 				wit["want"] = vlib.Trunc(wnt, 2500)
+				run.Violation(i, "", wit)
+			}
+		}
+		// One Go variables map serving two consecutive requests (callers that keep a
+		// map per client): whatever Parse did with it for an earlier document must
+		// not change what this document's conditions evaluate to.
+		if i%2 == 0 {
+			r2 := run.Rand("earlier-query", i)
+			o2 := o
+			o2.MaxDepth, o2.PVar, o2.PDir = 3, 0.5, 0.5
+			earlier := gen.Generate(r2, sd, w, o2)
+			shared := doc.VarsJSON()
+			before := vlib.Canon(shared)
+			_, _ = graphql.Parse(earlier.Text(), shared) // may be rejected (its own variables are not in the map)
+			schema := schemas[i%len(schemas)]
+			want, perr, _ := execute(schema, ptext, pvars, w)
+			got, err, at := execute(schema, text, shared, w)
+			run.Count("shared_variables_map_runs", 1)
+			wit := map[string]interface{}{"annotated": text, "variables": vars, "pruned": ptext, "pruned_variables": pvars, "config": names[i%len(schemas)],
+				"earlier_query_parsed_with_the_same_map": earlier.Text(), "variables_map_after_earlier_parse": vlib.Trunc(vlib.Canon(shared), 600), "variables_map_before": vlib.Trunc(before, 600)}
+			switch {
+			case perr != nil:
+			case err != nil:
+				wit["what"] = "annotated query failed at " + at + " when its variables map had served an earlier Parse, while the pruned query succeeds"
+				wit["error"] = err.Error()
+				run.Violation(i, "", wit)
+			case vlib.Canon(got) != vlib.Canon(want):
+				wit["what"] = "annotated query result differs from the pruned query's when its variables map had served an earlier Parse of another document"
+				wit["got"], wit["want"] = vlib.Trunc(vlib.Canon(got), 2500), vlib.Trunc(vlib.Canon(want), 2500)
 				run.Violation(i, "", wit)
 			}
 		}
